@@ -139,6 +139,22 @@ func (s *c40Sys) Close() {
 		os.RemoveAll(s.dir)
 	}
 }
+
+// Observe (called by the explorer after the newest operation of every transition): everything observable about the
+// key the operation concerned (Get, export with every passphrase, Sign). The dedup key of the search is the model
+// state, so the implementation is observed on every transition, not only when a model state is first reached.
+func (s *c40Sys) Observe(op int) (string, string) {
+	o := s.ops[op]
+	k := o.key
+	if o.kind == "create" {
+		k = 2
+	}
+	if sig, what := s.checkKey(k); sig != "" {
+		return "after-op/" + sig, fmt.Sprintf("after %s: %s", o, what)
+	}
+	return "", ""
+}
+
 func (s *c40Sys) Apply(op int) (string, string) {
 	o := s.ops[op]
 	mp, present := s.model[o.key]
@@ -247,9 +263,19 @@ func (s *c40Sys) Final() (string, string) {
 		return "keybase/list", fmt.Sprintf("List returns %v, stored keys (sorted) %v", got, want)
 	}
 	for k := 0; k < 3; k++ {
+		if sig, what := s.checkKey(k); sig != "" {
+			return sig, what
+		}
+	}
+	return "", ""
+}
+
+// checkKey: everything observable about one key against the model.
+func (s *c40Sys) checkKey(k int) (string, string) {
+	{
 		a := s.addr(k)
 		if a == nil {
-			continue
+			return "", ""
 		}
 		mp, present := s.model[k]
 		kp, err := s.kb.Get(a)
@@ -289,7 +315,7 @@ func c40Spec(lazy bool) *seq.Spec {
 	if lazy {
 		name = "keybase-lazy"
 	}
-	return &seq.Spec{Name: name, NumOps: len(ops), Depth: 40,
+	return &seq.Spec{Name: name, NumOps: len(ops), Depth: 40, FinalOnNewStatesOnly: true, // Observe covers the concerned key on every transition
 		OpName: func(i int) string { return ops[i].String() },
 		OpKind: func(i int) string { return ops[i].kind },
 		New: func() seq.Sys {
